@@ -82,7 +82,7 @@ def rust_frame(prog, fs, nm):
         ln = nm.i(sym(f"{fs.name}#{FV.index('Body')}.1.len", BV64))
         if ln > (1 << 20):
             return None
-        return f"AMQPFrame::Body({d['channel']}, vec![7u8; {ln}])"
+        return f"AMQPFrame::Body({d['channel']}, vec![{getattr(nm, 'chunks', {}).get(fs.name, 7)}u8; {ln}])"
     return None
 
 
@@ -163,7 +163,10 @@ fn reply_str(m: Result<ChannelMessage>) -> String {
     match m {
         Ok(ChannelMessage::Method(c)) => format!("Ok(Method:{})", cls_name(&c)),
         Ok(ChannelMessage::ConsumeOk(t, _)) => format!("Ok(ConsumeOk:{})", t),
-        Ok(ChannelMessage::GetOk(g)) => format!("Ok(GetOk:{})", if g.is_some() { "Some" } else { "None" }),
+        Ok(ChannelMessage::GetOk(g)) => match *g {
+            Some(g) => format!("Ok(GetOk:Some(tag={} redelivered={} exchange={:?} rk={:?} count={} body={}))", g.delivery.delivery_tag(), g.delivery.redelivered, g.delivery.exchange, g.delivery.routing_key, g.message_count, rle(&g.delivery.body)),
+            None => "Ok(GetOk:None)".to_string(),
+        },
         Err(e) => format!("Err({:?})", e),
     }
 }
@@ -180,9 +183,16 @@ fn drain<T, F: Fn(T) -> String>(rx: &cb::Receiver<T>, f: F) -> String {
     format!("[{}]", v.join(","))
 }
 
+fn rle(b: &[u8]) -> String {
+    let mut v: Vec<String> = Vec::new();
+    let mut i = 0;
+    while i < b.len() { let mut j = i; while j < b.len() && b[j] == b[i] { j += 1; } v.push(format!("{}x{}", b[i], j - i)); i = j; }
+    v.join("+")
+}
+
 fn cm_str(m: ConsumerMessage) -> String {
     match m {
-        ConsumerMessage::Delivery(d) => format!("Delivery(tag={} redelivered={} exchange={:?} rk={:?} len={})", d.delivery_tag(), d.redelivered, d.exchange, d.routing_key, d.body.len()),
+        ConsumerMessage::Delivery(d) => format!("Delivery(tag={} redelivered={} exchange={:?} rk={:?} body={})", d.delivery_tag(), d.redelivered, d.exchange, d.routing_key, rle(&d.body)),
         other => format!("{:?}", other),
     }
 }
@@ -222,7 +232,7 @@ fn observe(w: &mut VWorld) -> String {
         for (i, (_, rx)) in s.consumers.iter().enumerate() {
             if let Some(rx) = rx { o += &format!(",c{}={}", i, drain(rx, cm_str)); }
         }
-        if let Some(rx) = &s.ret_rx { o += &format!(",ret={}", drain(rx, |r: Return| format!("Return(code={} text={:?} exchange={:?} rk={:?} len={})", r.reply_code, r.reply_text, r.exchange, r.routing_key, r.content.len()))); }
+        if let Some(rx) = &s.ret_rx { o += &format!(",ret={}", drain(rx, |r: Return| format!("Return(code={} text={:?} exchange={:?} rk={:?} body={})", r.reply_code, r.reply_text, r.exchange, r.routing_key, rle(&r.content)))); }
         if let Some(rx) = &s.conf_rx { o += &format!(",conf={}", drain(rx, |c: Confirm| match c { Confirm::Ack(p) => format!("Ack({},{})", p.delivery_tag, p.multiple), Confirm::Nack(p) => format!("Nack({},{})", p.delivery_tag, p.multiple) })); }
         o += "}";
     }
@@ -287,7 +297,12 @@ def engine_reply_str(prog, msg, nm):
     if vn == 'GetOk':
         boxed = val.payloads[val.disc].fields[0]
         inner = boxed.fields[0].fields[0].cell.value
-        return f"Ok(GetOk:{'Some' if inner.disc == 1 else 'None'})"
+        if inner.disc != 1:
+            return "Ok(GetOk:None)"
+        g = inner.payloads[1].fields[0]
+        gn = prog.types.fields('Get')
+        meta, body = engine_delivery_str(prog, g.fields[gn.index('delivery')], nm)
+        return f"Ok(GetOk:Some({meta} count={nm.i(g.fields[gn.index('message_count')].bv)} body={body}))"
     return '?'
 
 
@@ -298,15 +313,35 @@ def engine_queue(ch, f):
     return '[' + ','.join(v) + ']'
 
 
+def engine_rle(bv, nm):
+    parts = []
+    for it in bv.items:
+        ln = nm.i(it['len'])
+        if ln == 0:
+            continue
+        if it['kind'] == 'chunk':
+            k = getattr(nm, 'chunks', {}).get(it['id'].split('#')[0], 7)
+        else:
+            k = 7
+        if parts and parts[-1][0] == k:
+            parts[-1][1] += ln
+        else:
+            parts.append([k, ln])
+    return '+'.join(f"{k}x{n}" for k, n in parts)
+
+
+def engine_delivery_str(prog, d, nm):
+    dn = prog.types.fields('Delivery')
+    g = lambda n: d.fields[dn.index(n)]
+    return (f"tag={nm.i(g('delivery_tag').bv)} redelivered={'true' if nm.b(g('redelivered').b) else 'false'} "
+            f"exchange={rs_str(nm.s(g('exchange').s))} rk={rs_str(nm.s(g('routing_key').s))}", engine_rle(g('body'), nm))
+
+
 def engine_cm_str(prog, msg, nm):
     vn = consumer_msg_kind(prog, msg)
     if vn == 'Delivery':
-        d = msg.payloads[msg.disc].fields[0]
-        dn = prog.types.fields('Delivery')
-        g = lambda n: d.fields[dn.index(n)]
-        body = g('body')
-        return (f"Delivery(tag={nm.i(g('delivery_tag').bv)} redelivered={'true' if nm.b(g('redelivered').b) else 'false'} "
-                f"exchange={rs_str(nm.s(g('exchange').s))} rk={rs_str(nm.s(g('routing_key').s))} len={nm.i(body.len)})")
+        meta, body = engine_delivery_str(prog, msg.payloads[msg.disc].fields[0], nm)
+        return f"Delivery({meta} body={body})"
     pay = msg.payloads.get(msg.disc)
     if pay is not None and 0 in pay.fields:
         return f"{vn}({engine_error_str(prog, pay.fields[0], nm)})"
@@ -354,7 +389,7 @@ def engine_obs(prog, s, w, results, nm, base_items=1):
             rn = prog.types.fields('Return')
             def rstr(r):
                 g = lambda n: r.fields[rn.index(n)]
-                return f"Return(code={nm.i(g('reply_code').bv)} text={rs_str(nm.s(g('reply_text').s))} exchange={rs_str(nm.s(g('exchange').s))} rk={rs_str(nm.s(g('routing_key').s))} len={nm.i(g('content').len)})"
+                return f"Return(code={nm.i(g('reply_code').bv)} text={rs_str(nm.s(g('reply_text').s))} exchange={rs_str(nm.s(g('exchange').s))} rk={rs_str(nm.s(g('routing_key').s))} body={engine_rle(g('content'), nm)})"
             o += f",ret={engine_queue(info['ret'], rstr)}"
         if info['conf'] is not None and nm.b(info['conf'].rx_alive):
             CV = prog.types.variants('confirm::Confirm')
@@ -459,6 +494,7 @@ def report_io(ctx, prog, role, text, s, w, results, pc, claim, fs_list, shape='N
         ctx.inconclusive.append(f"{role}: counterexample vanished on re-solve")
         return
     nm = Namer(m)
+    nm.chunks = {fs.name: 11 + i for i, fs in enumerate(fs_list)}
     events = events(m) if callable(events) else events
     events = events if events is not None else [('frame', fs) for fs in fs_list]
     test = build_test(prog, w, nm, shape, infoA or {}, events, blocked=blocked)
@@ -483,6 +519,7 @@ class Validator:
         if m is None:
             return
         nm = Namer(m)
+        nm.chunks = {fs.name: 11 + i for i, fs in enumerate(fs_list)}
         events = events(m) if callable(events) else events
         events = events if events is not None else [('frame', fs) for fs in fs_list]
         test = build_test(self.prog, w, nm, shape, infoA or {}, events, blocked=blocked)
